@@ -120,6 +120,8 @@ def _remove_unused_nodes_in_graph_like(function_or_graph: ir.Function | ir.Graph
                 if _remove_unused_optional_outputs(node, graph_outputs, onnx_opset_version):
                     count += 1
             for attr in node.attributes.values():
+                if attr.is_ref():
+                    continue
                 if attr.type == ir.AttributeType.GRAPH:
                     count += _remove_unused_nodes_in_graph_like(attr.as_graph())
                 elif attr.type == ir.AttributeType.GRAPHS:
